@@ -374,3 +374,48 @@ Proof.
   split. repeat constructor; cbn; try lia; try discriminate.
   eexists. split. vm_compute. reflexivity. cbn. split; [discriminate | lia].
 Qed.
+
+(* ---- blacklist permanence and the lifecycle over ONE run *)
+Lemma blk_permanent es : forall g ip, ~ In (EUnblock ip) es -> blk g ip = true -> blk (grun g es) ip = true.
+Proof.
+  induction es as [|e es IH]; intros g ip NU B; cbn; auto. apply IH.
+  - intros I. apply NU. right; auto.
+  - destruct e; cbn; auto.
+    + destruct (ip =? ip0)%N; auto.
+    + destruct (ip =? ip0)%N eqn:E; auto. apply N.eqb_eq in E. subst. exfalso. apply NU. left; auto.
+Qed.
+
+(* a blacklisted IP stays refused on both paths through every event sequence that does not unblock it *)
+Lemma blacklisted_refused_forever es g ip : ~ In (EUnblock ip) es -> blk g ip = true ->
+  inbound_ok (grun g es) (Some ip) = false /\ outbound_ok (grun g es) (Some ip) = false.
+Proof.
+  intros NU B. pose proof (blk_permanent es g ip NU B) as B'.
+  assert (R : banned (grun g es) ip || blk (grun g es) ip = true) by (rewrite B'; apply orb_true_r).
+  apply refused_everywhere in R. tauto.
+Qed.
+
+Lemma grun_app es1 es2 g : grun g (es1 ++ es2) = grun (grun g es1) es2.
+Proof. unfold grun. apply fold_left_app. Qed.
+
+(* one run: ban at t; es1 = anything that respects the (possibly renewed) ban; es2 = no further penalty on the IP and a sweep later
+   than the expiry the ban has after es1. At the end the IP is accepted on both paths iff it is not blacklisted. *)
+Theorem ban_lifecycle_one_run g ip amt t es1 es2 :
+  0 <= t -> 0 <= exp_secs g -> max_penalty <= score_of g ip + amt ->
+  let g1 := fst (add_penalty g ip amt t) in
+  Forall (respects ip (t + exp_secs g) g1) es1 ->
+  no_pen ip es2 -> (exists now, In (ESweep now) es2 /\ expiry_of (grun g1 es1) ip < now) ->
+  let gf := grun g1 (es1 ++ es2) in
+  banned (grun g1 es1) ip = true /\ sc gf ip = None /\
+  inbound_ok gf (Some ip) = negb (blk gf ip) /\ outbound_ok gf (Some ip) = negb (blk gf ip).
+Proof.
+  intros T0 E0 H. cbn zeta. intros F NP [now [I L]].
+  destruct (ban_lifecycle g ip amt t es1 [] T0 E0 H) as [P1 _]. destruct (P1 F) as [B _].
+  set (g2 := grun (fst (add_penalty g ip amt t)) es1) in *.
+  unfold banned, expiry_of in *. destruct (sc g2 ip) as [i|] eqn:S; try discriminate.
+  assert (NE : expiration i <> -1) by (apply negb_true_iff, Z.eqb_neq in B; auto).
+  rewrite grun_app. fold g2.
+  assert (N0 : sc (grun g2 es2) ip = None) by (apply (expired_ban_is_swept es2 g2 ip i); eauto).
+  split; auto. split; auto.
+  unfold inbound_ok, outbound_ok, intercept_accept, intercept_addr_dial, intercept_secured, intercept_peer_dial, intercept_upgraded,
+    allowed, banned. rewrite N0. cbn. destruct (blk (grun g2 es2) ip); auto.
+Qed.
